@@ -62,6 +62,34 @@ def witness_f32_d1(theta, N, seed):
     return _witness(theta, N, seed, 1, "f32")
 
 
+def _alt(theta, N, seed, D):
+    """Same as the plain witness except in part of the parameter space (first coordinate in the upper half of its cell parity)."""
+    out = _witness(theta, N, seed, D)
+    t0 = float(np.asarray(theta, dtype=float).ravel()[0])
+    if int(np.floor(t0 * 7.3)) % 2 == 0:
+        flat = out.reshape(-1)
+        P = len(np.asarray(theta).ravel())
+        flat[P + HEADER:] = flat[P + HEADER:] * 1.5
+    return out
+
+
+def witness_d1_alt(theta, N, seed):
+    return _alt(theta, N, seed, 1)
+
+
+def witness_d2_alt(theta, N, seed):
+    return _alt(theta, N, seed, 2)
+
+
+def witness_d3_alt(theta, N, seed):
+    return _alt(theta, N, seed, 3)
+
+
+witness_d1_alt.__name__ = "witness_d1"
+witness_d2_alt.__name__ = "witness_d2"
+witness_d3_alt.__name__ = "witness_d3"
+ALT = {1: witness_d1_alt, 2: witness_d2_alt, 3: witness_d3_alt}
+
 WITNESS = {
     ("plain", 1): witness_d1, ("plain", 2): witness_d2, ("plain", 3): witness_d3,
     ("huge", 1): witness_huge_d1, ("huge", 2): witness_huge_d2, ("inf", 1): witness_inf_d1, ("f32", 1): witness_f32_d1,
